@@ -583,4 +583,38 @@ theorem docTree_sound (g : Store) (fuel : Nat) (catalog : Dict) (t : PTree)
       · cases h
     · cases h
 
+/-! ### Boxes -/
+
+theorem normalize_rect_normalised (r : Rect) : Normalised (normalize_rect r) := by
+  obtain ⟨x0, y0, x1, y1⟩ := r
+  simp only [normalize_rect, Normalised]
+  constructor <;> grind
+
+theorem parseBox_normalised (g : Store) (v : Val) (r : Rect) (h : parseBox g v = .ok (some r)) : Normalised r := by
+  unfold parseBox at h
+  split at h
+  · split at h
+    · simp only [Except.ok.injEq, Option.some.injEq] at h
+      subst h
+      exact normalize_rect_normalised _
+    · cases h
+  all_goals (first | cases h | (simp at h))
+
+theorem box_default (g : Store) (v : Val) (dflt mbox : Rect) (hd : Normalised dflt)
+    (h : ((fun (o : Option Rect) => o.getD dflt) <$> parseBox g v) = .ok mbox) : Normalised mbox := by
+  cases hpb : parseBox g v with
+  | error e => rw [hpb] at h; cases h
+  | ok o =>
+    rw [hpb] at h
+    cases o with
+    | none =>
+      have : dflt = mbox := by simpa [Functor.map, Except.map] using h
+      subst this; exact hd
+    | some r =>
+      have : r = mbox := by simpa [Functor.map, Except.map] using h
+      subst this; exact parseBox_normalised g v r hpb
+
+theorem us_letter_normalised : Normalised US_LETTER := by
+  simp only [Normalised, US_LETTER]; constructor <;> decide
+
 end PdfVerif.PageTree
